@@ -7,7 +7,8 @@ for c, cn in enumerate(CTLS):
     JOBS.append(Job('tree.parallel.ctl%d' % c, 'C17/actions.cpp', 'h_tree', 'B', defs={'KIND': 1, 'NL': 2, 'CTL': c}, reach=['tree'], timeout=1700,
                     clause='ParallelAction over 2 probe leaves, same symbolic dimensions, control script "%s"; then reset and a second run' % cn))
 JOBS.append(Job('repeat.loop', 'C17/actions.cpp', 'h_repeat', 'B', reach=['repeat'], timeout=1700, clause='RepeatAction (1-3 times, all modes) and LoopAction (until-fail / until-succ) over a probe leaf with per-round symbolic outcome and inline/late completion: rounds run and result equal the documented loop meaning'))
-JOBS.append(Job('tree.parallel3', 'C17/actions.cpp', 'h_tree', 'B', defs={'KIND': 1, 'NL': 3}, reach=['tree'], timeout=3400, tier='thorough', clause='ParallelAction over 3 probe leaves, all control scripts'))
+for c, cn in enumerate(CTLS):
+    JOBS.append(Job('tree.parallel3.ctl%d' % c, 'C17/actions.cpp', 'h_tree', 'B', defs={'KIND': 1, 'NL': 3, 'CTL': c}, reach=['tree'], timeout=3400, tier='thorough', clause='ParallelAction over 3 probe leaves, control script "%s"' % cn))
 META = dict(
     explanation='Path-wise symbolic execution (engine/symir.py, z3) of the real flow::Action base class, AssembleAction, SequenceAction, ParallelAction and DummyAction on a fake loop (deferred finish/block notifications run pass by pass) and fake timers. '
                 'Composite mode, every leaf outcome (success / failure / block / never), whether a leaf completes inside its start hook or on a later loop pass, a timeout on the root and one control call (none / stop / pause+resume / reset) at a symbolic pass are symbolic. '
